@@ -1344,3 +1344,27 @@ func linSign(a, b *Term) (int, bool) {
 }
 
 func mkSubRaw(a, b *Term) *Term { return app("-", SInt, a, b) }
+
+// reDiffChars: any single byte except those in chars (as a union of ranges, which
+// every decision stage understands).
+func reDiffChars(chars string) *Term {
+	ex := map[int]bool{}
+	for i := 0; i < len(chars); i++ {
+		ex[int(chars[i])] = true
+	}
+	var parts []*Term
+	lo := -1
+	for c := 0; c <= 256; c++ {
+		if c < 256 && !ex[c] {
+			if lo < 0 {
+				lo = c
+			}
+			continue
+		}
+		if lo >= 0 {
+			parts = append(parts, reRange(byte(lo), byte(c-1)))
+			lo = -1
+		}
+	}
+	return reUnion(parts...)
+}
